@@ -171,7 +171,9 @@ func (dist *TDistribution) Pdf(r Scalar, x ConstVector) error {
 /* -------------------------------------------------------------------------- */
 
 func (dist *TDistribution) GetParameters() Vector {
-  p := dist.Mu
+  p := NullDenseVector(dist.ScalarType(), 0)
+  p  = p.AppendScalar(dist.Nu)
+  p  = p.AppendVector(dist.Mu)
   p  = p.AppendVector(dist.Sigma.AsVector())
   return p
 }
